@@ -28,7 +28,7 @@ pub struct CliCase {
 
 pub fn cli_case() -> impl Strategy<Value = CliCase> {
     (
-        0u8..11,
+        prop_oneof![20 => 0u8..11, 1 => Just(11u8)],
         0u8..5,
         any::<bool>(),
         any::<bool>(),
@@ -42,7 +42,7 @@ pub fn cli_case() -> impl Strategy<Value = CliCase> {
         .prop_map(|(kind, name, subdir, abs, o, e, v, long, pre, n)| CliCase { kind, name, subdir, abs, o, e, v, long, pre, n })
 }
 
-pub const KINDS: &[&str] = &["valid-code-only", "valid-code-and-eeprom", "valid-eeprom-only", "empty-source", "failing-syntax", "failing-semantic", "failing-missing-include", "nonexistent-source", "valid-with-local-include", "valid-above-64k", "valid-with-messages"];
+pub const KINDS: &[&str] = &["valid-code-only", "valid-code-and-eeprom", "valid-eeprom-only", "empty-source", "failing-syntax", "failing-semantic", "failing-missing-include", "nonexistent-source", "valid-with-local-include", "valid-above-64k", "valid-with-messages", "valid-around-1MiB"];
 
 fn source_text(kind: u8, n: u8) -> Option<String> {
     let body: String = (0..(n % 40) as u32 + 1).map(|i| format!(".dw {}\n", (i.wrapping_mul(2654435761u32) % 65536))).collect();
@@ -57,6 +57,7 @@ fn source_text(kind: u8, n: u8) -> Option<String> {
         7 => return None,
         8 => format!(".include \"local.inc\"\nldi r16, LOCAL_VALUE\n{}", body),
         9 => format!("nop\n.org {}\n{}.eseg\n.db 7\n", 33000 + n as u32 * 10, body),
+        11 => format!("nop\n.org {}\n{}", 0x80000 - 20 + (n as u32 % 8) * 8, body),
         _ => format!(".message \"hello {}\"\nnop\n.warning \"careful\"\n{}", n, body),
     })
 }
